@@ -68,8 +68,14 @@ impl Key {
     }
 
     pub fn to_rel_link_url(&self, relative_to: &str) -> String {
+        // a link names a note, so it always ends with the note's own name: the directory part is
+        // relativised, the name is appended ("a" seen from "a/b" is "../../a", not "..";
+        // seen from "a" it is "../a", not the empty url)
+        let key = RelativePath::new(self.relative_path.as_str());
+        let name = key.file_name().unwrap_or_default();
         RelativePath::new(relative_to)
-            .relative(self.relative_path.to_string())
+            .relative(key.parent().unwrap_or(RelativePath::new("")))
+            .join(name)
             .to_string()
     }
 
